@@ -8,9 +8,13 @@ Driver for the Upsert model (dispatch key "upsert").  Column ids and cell tokens
    "schema":[["i","data"],["f","formula"],…], "table":[[rowId,[["i","n1"],…]],…], "next":7,
    "defaults":[["i","n0"],…],
    "require":   bulk: [["i",[["raw","conv"],…]],…]     single: [["i",["raw","conv"]],…]
+                a require cell may be a triple ["raw","conv","store"] (pair: store = conv)
    "col_values":bulk: [["t",["sX",…]],…]               single: [["t","sX"],…]
-   "options":{"update":true,"add":true,"on_many":"first"|"none"|"all"|"bad","allow_empty_require":false}}
-Answer: {"impl": OUT, "spec": OUT} (single: only "impl"), OUT = {"error": class, "tag": which} or
+   "options":{"update":true,"add":true,"on_many":"first"|"none"|"all"|"bad","allow_empty_require":false},
+   optional "conv_add":[["e","s"],…], "conv_upd":[…] : empty columns (schema kind "empty") converted by
+   the BulkAddRecord / the BulkUpdateRecord, with the new type's default}
+Answer: {"impl": OUT, "spec": OUT} (single: only "impl"), "impl" = upsertImplConv / addOrUpdateImplConv,
+  "spec" = upsertSpec (knows no conversions); OUT = {"error": class, "tag": which} or
   {"table":[[rowId,[[col,tok],…]],…], "recordIds":…, "addRecordIds":…, "updateRecordIds":…}
   (single: "recordIds": [..], "action": "ADD"|"UPDATE"|"NONE").
 -/
@@ -33,8 +37,12 @@ def assoc {β : Type} (f : Json → Except String β) (j : Json) : Except String
 def str (j : Json) : Except String String := j.getStr?
 
 def cellOf (j : Json) : Except String (Cell V) := do
-  let (r, c) ← pair j
-  pure ⟨← r.getStr?, ← c.getStr?⟩
+  let a ← j.getArr?
+  if h : a.size = 2 then
+    let c ← a[1].getStr?
+    pure ⟨← a[0].getStr?, c, c⟩
+  else if h : a.size = 3 then pure ⟨← a[0].getStr?, ← a[1].getStr?, ← a[2].getStr?⟩
+  else throw "expected a require cell [raw, conv] or [raw, conv, store]"
 
 def listOf {β : Type} (f : Json → Except String β) (j : Json) : Except String (List β) := do
   let a ← j.getArr?
@@ -44,6 +52,7 @@ def kindOf (j : Json) : Except String ColKind := do
   match (← j.getStr?) with
   | "data" => pure .data
   | "formula" => pure .formula
+  | "empty" => pure .empty
   | s => throw s!"bad column kind {s}"
 
 def tableOf (j : Json) : Except String (Table K V) := do
@@ -94,18 +103,24 @@ def handleUpsert (j : Json) : Except String Json := do
   let next ← j.getObjValAs? Nat "next"
   let dflt ← assoc str (← j.getObjVal? "defaults")
   let opt ← optionsOf (← j.getObjVal? "options")
+  let cvAdd ← match j.getObjVal? "conv_add" with
+    | .ok x => assoc str x
+    | .error _ => pure []
+  let cvUpd ← match j.getObjVal? "conv_upd" with
+    | .ok x => assoc str x
+    | .error _ => pure []
   match op with
   | "bulk" =>
     let req ← assoc (listOf cellOf) (← j.getObjVal? "require")
     let cv ← assoc (listOf str) (← j.getObjVal? "col_values")
     let rq : Request K V := { require := req, colValues := cv }
-    pure <| Json.mkObj [("impl", bulkOut (upsertImpl sch t0 next dflt rq opt)),
+    pure <| Json.mkObj [("impl", bulkOut (upsertImplConv sch t0 next dflt rq opt cvAdd cvUpd)),
                         ("spec", bulkOut (upsertSpec sch t0 next dflt rq opt)),
                         ("targets", toJson (updTargets sch t0 rq opt))]
   | "single" =>
     let req ← assoc cellOf (← j.getObjVal? "require")
     let cv ← assoc str (← j.getObjVal? "col_values")
-    pure <| Json.mkObj [("impl", singleOut (addOrUpdateImpl sch t0 next dflt req cv opt))]
+    pure <| Json.mkObj [("impl", singleOut (addOrUpdateImplConv sch t0 next dflt req cv opt cvAdd cvUpd))]
   | _ => throw s!"unknown upsert op {op}"
 
 end Grist.Driver
